@@ -1,3 +1,3 @@
 SPECIFICATION Spec
-INVARIANTS ContainerIndependent FormIndependent SameBytes BytesInterchangeable EmitCases
+INVARIANTS ContainerIndependent FormIndependent SameBytes BytesInterchangeable SharedDecodes EmitCases
 CHECK_DEADLOCK FALSE
